@@ -132,15 +132,28 @@ Section Gen.
   Record loopst := {
     ls_entries : list stmt;                        (* ninja_entries: IndexSet<String> *)
     ls_objects : list str;
-    ls_depfiles : list (str * list str) }.         (* module_build_dep_files *)
+    ls_depfiles : list (str * list str);           (* module_build_dep_files *)
+    ls_dldirs : list (str * str) }.                (* download_dirs: srcdir of a downloading module -> its tag file *)
 
   Definition add_entry (s : stmt) (st : loopst) : loopst :=
-    {| ls_entries := sset_insert s (ls_entries st); ls_objects := ls_objects st; ls_depfiles := ls_depfiles st |}.
+    {| ls_entries := sset_insert s (ls_entries st); ls_objects := ls_objects st; ls_depfiles := ls_depfiles st;
+       ls_dldirs := ls_dldirs st |}.
   Definition add_object (o : str) (st : loopst) : loopst :=
-    {| ls_entries := ls_entries st; ls_objects := ls_objects st ++ [o]; ls_depfiles := ls_depfiles st |}.
+    {| ls_entries := ls_entries st; ls_objects := ls_objects st ++ [o]; ls_depfiles := ls_depfiles st;
+       ls_dldirs := ls_dldirs st |}.
   Definition add_depfiles (name : str) (files : list str) (st : loopst) : loopst :=
     {| ls_entries := ls_entries st; ls_objects := ls_objects st;
-       ls_depfiles := ainsert name (iset_union (odflt [] (alookup name (ls_depfiles st))) files) (ls_depfiles st) |}.
+       ls_depfiles := ainsert name (iset_union (odflt [] (alookup name (ls_depfiles st))) files) (ls_depfiles st);
+       ls_dldirs := ls_dldirs st |}.
+  Definition add_dldir (srcdir tagfile : str) (st : loopst) : loopst :=
+    {| ls_entries := ls_entries st; ls_objects := ls_objects st; ls_depfiles := ls_depfiles st;
+       ls_dldirs := ainsert srcdir tagfile (ls_dldirs st) |}.
+  (* ContainingPath::get_containing_path: the entry for the path itself, else the first whose key is a prefix *)
+  Definition containing_path (dirs : list (str * str)) (p : str) : option str :=
+    match find (fun kv => path_eq (fst kv) p) dirs with
+    | Some kv => Some (snd kv)
+    | None => option_map snd (find (fun kv => path_starts_with p (fst kv)) dirs)
+    end.
 
   (* sources_optional whose guard is selected, in map order *)
   Definition optional_sources (m : module) (ms : list module) : list str :=
@@ -162,7 +175,7 @@ Section Gen.
   Definition compile_source (rules : list (str * rule)) (module_rules : list (str * nrule))
              (flat : fenv) (objdir builder_name binary_name srcdir : str)
              (combined : option (list str)) (deps_hash : N) (local_deps : option (list str))
-             (st : loopst) (source : str) : res loopst :=
+             (src_tagfile : option str) (st : loopst) (source : str) : res loopst :=
     rbind (expand_eval EV flat PEmpty (path_push srcdir source)) (fun srcpath =>
     rbind (match extension srcpath with
            | Some ext => match alookup ext rules, alookup ext module_rules with
@@ -179,8 +192,47 @@ Section Gen.
         | Some ld => add_entry (SBuild {| nb_rule := S_ "phony"; nb_inputs := None; nb_outs := [srcpath];
                                           nb_deps := Some (sort_paths ld); nb_env := None;
                                           nb_always := false |}) st1
-        | None => st1
+        | None =>
+            (* a source that lives in another module's download directory waits for that download *)
+            match src_tagfile with
+            | Some tf => add_entry (SBuild {| nb_rule := S_ "phony"; nb_inputs := Some [tf]; nb_outs := [srcpath];
+                                              nb_deps := None; nb_env := None; nb_always := false |}) st1
+            | None => st1
+            end
         end)))).
+
+  (* download.rs: Download::render / patch — the statements that fetch (and patch) a module's sources *)
+  Definition e_dl_unsupported := EOther (S_ "unsupported-download").
+  Definition e_dl_rule := EOther (S_ "missing-download-rule").
+  Definition download_stmts (rules : list (str * rule)) (flat : fenv) (m : module) (srcdir : str) (d : download)
+    : res (list stmt) :=
+    match dl_source_of d with
+    | DlUnsupported => Err e_dl_unsupported
+    | DlGitCommit url commit =>
+        let rule_env := [(S_ "commit", commit); (S_ "url", url)] in
+        match get_rule (S_ "GIT_DOWNLOAD") rules with
+        | None => Err e_dl_rule
+        | Some dr =>
+            rbind (to_ninja flat dr) (fun ndr =>
+            let tag_dl := dl_tagfile_download srcdir in
+            let dl_build := {| nb_rule := nr_name ndr; nb_inputs := None; nb_outs := [tag_dl];
+                               nb_deps := None; nb_env := Some rule_env; nb_always := false |} in
+            match dl_patches d with
+            | None => Ok [SRule ndr; SBuild dl_build]
+            | Some patches =>
+                match get_rule (S_ "GIT_PATCH") rules with
+                | None => Err e_dl_rule
+                | Some pr =>
+                    rbind (to_ninja flat pr) (fun npr =>
+                    let p_build := {| nb_rule := nr_name npr;
+                                      nb_inputs := Some (map (fun x => path_push (odflt [] (m_relpath m)) x) patches);
+                                      nb_outs := [dl_tagfile_patched srcdir]; nb_deps := Some [tag_dl];
+                                      nb_env := Some rule_env; nb_always := false |} in
+                    Ok [SRule ndr; SBuild dl_build; SRule npr; SBuild p_build])
+                end
+            end)
+        end
+    end.
 
   (* the per-module body, generate.rs:598-918 (without downloads) *)
   Definition module_step (rules : list (str * rule)) (merge_opts : option (list (str * mergeopt)))
@@ -191,7 +243,14 @@ Section Gen.
     | None => Ok st                                                   (* context module *)
     | Some srcdir =>
       rbind (flatten_with_opts_option merge_opts menv) (fun flat =>
-      rbind (expand_eval EV flat PIgnore srcdir) (fun _ =>
+      rbind (match m_download m with
+             | Some d => download_stmts rules flat m srcdir d
+             | None => Ok [] end) (fun dl_stmts =>
+      let st := fold_left (fun s e => add_entry e s) dl_stmts st in
+      rbind (match m_download m with
+             | Some d => Ok (add_dldir srcdir (dl_tagfile d srcdir) st, None)
+             | None => rmap (fun sx => (st, containing_path (ls_dldirs st) sx)) (expand_eval EV flat PIgnore srcdir)
+             end) (fun '(st, src_tagfile) =>
       let have_global := match global_deps with [] => false | _ => true end in
       let mdeps1 := if have_global && negb (m_is_global_build_dep m)
                     then Some (fold_left (fun acc d => mset_insert d acc) (odflt [] mdeps) global_deps)
@@ -239,9 +298,9 @@ Section Gen.
                     end)) (all_sources m ms) (Ok ([], st1))) (fun '(module_rules, st2) =>
           fold_left (fun acc source => rbind acc (fun s =>
                        compile_source rules module_rules flat objdir builder_name binary_name srcdir
-                                      combined deps_hash local_deps s source))
+                                      combined deps_hash local_deps src_tagfile s source))
                     (all_sources m ms) (Ok st2))
-      end)))
+      end))))
     end.
 
   Definition has_opt_list (l : option (list str)) (x : str) : bool :=
@@ -335,7 +394,7 @@ Section Gen.
             rbind (rmapM (fun n => opt_unwrap 103 (find (fun mm => str_eqb n (m_name (fst (fst mm)))) mods)) order) (fun in_order =>
             rbind (fold_left (fun acc mm => rbind acc (fun st =>
                                 module_step rules merge_opts ms global_deps objdir (c_name bctx) (m_name binary) st mm))
-                             in_order (Ok {| ls_entries := []; ls_objects := []; ls_depfiles := [] |})) (fun st =>
+                             in_order (Ok {| ls_entries := []; ls_objects := []; ls_depfiles := []; ls_dldirs := [] |})) (fun st =>
             let gfiles := fold_left (fun acc d => match alookup (m_name d) (ls_depfiles st) with
                                                   | Some fs => iset_union acc fs | None => acc end) global_deps [] in
             let gfiles := match gfiles with [] => None | _ => Some (sort_paths gfiles) end in
